@@ -667,6 +667,9 @@ def mnps_ensures(c):
         ("scheduled-pulse-is-valid", valid_pulse_(s_pulse(res))),
         ("same-waveforms", z3.And(p_duration(s_pulse(res)) == p_duration(T(c.pulse)),
                                   z3.Implies(drift_none, s_pulse(res) == T(c.pulse)))),
+        ("keeps-amplitude-and-detuning", z3.And(_P_AMP(s_pulse(res)) == _P_AMP(T(c.pulse)), _P_DET(s_pulse(res)) == _P_DET(T(c.pulse)))),
+        ("drift-corrected-phase", z3.Implies(z3.Not(drift_none), _pph(s_pulse(res)) == _fmt(_pph(T(c.pulse)) - _DRIFT(
+            _uf("_PhaseDriftParams.drift_rate", Ref, _R)(T(c.phase_drift_params.val)), ti - _uf("_PhaseDriftParams.ti", Ref, I)(T(c.phase_drift_params.val)))))),
         ("not-before-channel-end", ti >= t0),
         ("after-phase-barriers", seq_all(bts, lambda b: ti >= b)),
         ("delay-is-zero-or-valid", z3.Or(D == 0, D >= m)),
@@ -684,6 +687,13 @@ def mnps_ensures(c):
         ("earliest-allowed", z3.Or(D == 0, lower_bounds)),
         ("within-max-sequence-duration", z3.Implies(T(c.block_over_max_duration), z3.Or(sch_maxdur_none(sch), tf <= sch_maxdur(sch)))),
     ]
+
+
+from .lib import fmt as _fmt  # noqa: E402
+from pyvc.core import R as _R, uf as _uf  # noqa: E402
+_DRIFT = uf("DRIFT", _R, I, _R)      # (same symbol as contracts/eom_seq.py: rate * dt * 1e-3, defined where calc_phase_drift is verified)
+_P_AMP = lambda p: uf("Pulse.amplitude", Ref, Ref)(p)
+_P_DET = lambda p: uf("Pulse.detuning", Ref, Ref)(p)
 
 
 def caused_by_some_pulse_lt(h, sch, chan, T0, prot, low, floor):
@@ -737,6 +747,9 @@ def add_pulse_ensures(c):
                                                                           z3.Or(s_kind(gap) == DELAY, z3.And(s_kind(gap) == PULSE, IS_DETUNED_DELAY(s_pulse(gap))))))),
         ("pulse-slot", z3.And(s_kind(new) == PULSE, s_tf(new) == s_ti(new) + p_duration(T(c.pulse)), s_targets(new) == s_targets(last),
                               p_duration(s_pulse(new)) == p_duration(T(c.pulse)), z3.Implies(c.phase_drift_params.none, s_pulse(new) == T(c.pulse)))),
+        ("keeps-amplitude-and-detuning", z3.And(_P_AMP(s_pulse(new)) == _P_AMP(T(c.pulse)), _P_DET(s_pulse(new)) == _P_DET(T(c.pulse)))),
+        ("drift-corrected-phase", z3.Implies(z3.Not(c.phase_drift_params.none), _pph(s_pulse(new)) == _fmt(_pph(T(c.pulse)) - _DRIFT(
+            _uf("_PhaseDriftParams.drift_rate", Ref, _R)(T(c.phase_drift_params.val)), s_ti(new) - _uf("_PhaseDriftParams.ti", Ref, I)(T(c.phase_drift_params.val)))))),
         ("no-gap", z3.Implies(n1 == n0 + 1, s_ti(new) == t0)),
         ("no-delay-appends-just-the-pulse", z3.Implies(z3.And(nodelay, seq_all(c.phase_barrier_ts, lambda b: b <= t0)), n1 == n0 + 1)),
         ("after-phase-barriers", seq_all(c.phase_barrier_ts, lambda b: s_ti(new) >= b)),
